@@ -111,7 +111,7 @@ CLAIMED.update({
 
 CLAIMED.update({
     "C20": ("Coq proof (parse-after-print round trip of every option kind - comma lists, key/value tables with and without stripping, repeated rate-modifier options, ODE-modifier items - from the split/join and strip lemmas, composed field by field for the whole description) + extracted-model correspondence against `naunet init` on generated option strings + request-vs-file oracle and command-line-vs-API rendering comparison",
-            "Theorems in Props/C20.v: a network description whose values hold no separator of their own field, no blank at either end and no substring 'null' reaches the configuration exactly as written on the command line - element and pseudo-element lists, replacements, the three species symbols, allowed and extra species, binding energies and yields, files and formats, grain model, thermal processes, shielding, rate modifiers, solver / device / method; each option kind separately; the configuration writes the bulk prefix it is given (probed on every run). Two separator behaviours are proved as known findings ('null' removed from every value; rate-modifier values cut at a second colon). Tied to `naunet init` -> naunet_config.toml -> `naunet render` and to Network(...).to_code().",
+            "Theorems in Props/C20.v: a network description whose values hold no separator of their own field, no blank at either end and no substring 'null' reaches the configuration exactly as written on the command line - element and pseudo-element lists, replacements, the three species symbols, allowed and extra species, binding energies and yields, files and formats, grain model, thermal processes, shielding, rate modifiers, solver / device / method; each option kind separately; the configuration writes the bulk prefix it is given (probed on every run). Two separator behaviours are proved as known findings ('null' removed from every value; rate-modifier values cut at a second colon). Tied to `naunet init` -> naunet_config.toml -> `naunet render` and to Network(...).to_code(). Solver selection (selection_kept_or_refused, for every table; live_selection_table on the table read from init.py on this run): the stored method is the one asked for or the entry's first method when none is given - an unsupported solver/device/method is refused, never replaced.",
             "cleo's tokenisation and tomlkit are exercised, not modelled (a TOML document is the record of values put into it); ODE modifiers are part of the composed theorem (options_roundtrip_full: distinct species, items free of the separators : , ; [ ] and blank-free dependency names); the render comparison needs a description the network files support.",
             "7 C20"),
 })
